@@ -50,12 +50,27 @@ def cases(rng):
                 if v < 0:
                     lit = '-' + lit
                 exp_lint = not (lo <= v <= hi)
-                # the bit pattern -2^127 written as a naked decimal is the recorded finding D8 (parsed as a negated bit literal)
-                if t == 'i128' and v == lo and form in ('dec', 'dec_'):
-                    continue
                 out.append(('fn f()\n{\n\tvar x: %s = %s;\n}\n' % (t, lit), exp_lint, '%s typed %s by its declaration' % (lit, t)))
                 if form in ('dec', 'dec_') or t in UNSIGNED:
                     out.append(('fn f()\n{\n\tvar x = %s%s;\n}\n' % (lit, t), exp_lint, '%s%s typed by its suffix' % (lit, t)))
+    # the same literal in every position where its type is fixed by the context
+    for t in ('u8', 'i8', 'u16', 'i32'):
+        lo, hi = rng_of(t)
+        for v in (hi, hi + 1):
+            exp_lint = v > hi
+            ctxs = {
+                'assignment': 'fn f()\n{\n\tvar x: %s = 0;\n\tx = %d;\n}\n' % (t, v),
+                'argument': 'fn g(a: %s)\n{\n}\n\nfn f()\n{\n\tg(%d);\n}\n' % (t, v),
+                'array element': 'fn f()\n{\n\tvar x: [2]%s = [1, %d];\n}\n' % (t, v),
+                'operand': 'fn f(a: %s)\n{\n\tvar x: %s = a + %d;\n}\n' % (t, t, v),
+                'constant': 'const K: %s = %d;\n' % (t, v),
+                'structure member': 'struct S\n{\n\ta: %s,\n}\n\nfn f()\n{\n\tvar s: S = S { a: %d };\n}\n' % (t, v),
+                'if condition (right operand)': 'fn f(x: %s)\n{\n\tif x == %d\n\t{\n\t\tgoto end;\n\t}\n\tend:\n}\n' % (t, v),
+                'return value': 'fn f() -> %s\n{\n\treturn: %d\n}\n' % (t, v),
+                'return value after statements': 'fn f(a: %s) -> %s\n{\n\tvar x: %s = a;\n\treturn: %d\n}\n' % (t, t, t, v),
+            }
+            for cn, src in ctxs.items():
+                out.append((src, exp_lint, '%d of type %s as %s' % (v, t, cn)))
     for extra in (2 ** 128, 2 ** 128 + 5, 10 ** 40):
         out.append(('fn f()\n{\n\tvar x: u128 = %d;\n}\n' % extra, 'E140', '%d is beyond 128 bits' % extra))
     rng.shuffle(out)
